@@ -27,6 +27,8 @@ def configure(cfg):
         _escape_schema(CFG["version"])        # schemas are built outside the tracer (construction cannot run under it)
     if cfg.get("xsi"):
         _xsi_schema(CFG["version"])
+    if cfg.get("arith"):
+        _arith_schema(CFG["version"])
 
 
 def _profile(ops):
@@ -117,6 +119,8 @@ def h_limits(ops: List[bool], ns: List[bool], dlim: int, elim: int) -> bool:
 def explain(fn, args):
     if fn == "h_escape":
         return explain_escape(args)
+    if fn == "h_arith":
+        return "XSD %s arithmetic escape args %r (dates %r durations %r years %r ints %r)" % (CFG["version"], args, A_DATES, A_DURS, A_YEARS, A_INTS)
     if fn == "h_xsi":
         return "XSD %s document %s" % (CFG["version"], ET.tostring(_xsi_doc(args)).decode())
     if fn != "h_limits":
@@ -180,6 +184,12 @@ def obligations(tier, seed):
                             "config": {"version": version, "xsi": True, "fixed_w": w}, "timeout": 300 if quick else 1500, "twin_timeout": 30,
                             "bound": "xsi:type from %r%s%s on element %s" % (XSI_TYPES, " x xsi:nil from %r" % (XSI_NILS,) if "n" in grp else "",
                                                                             " x stray %r" % (XSI_STRAY,) if "s" in grp else "", XSI_WHERE[w])})
+    out.append({"name": "arith/1.0", "fn": "h_arith", "pre": "pre_arith", "args": [["k", "int"], ["p", "int"], ["y", "int"]],
+                "config": {"version": "1.0", "arith": True}, "timeout": 300, "twin_timeout": 30,
+                "bound": "identity fields of type date / duration / gYear with values from %r, %r, %r" % (A_DATES, A_DURS, A_YEARS)})
+    out.append({"name": "arith/1.1", "fn": "h_arith", "pre": "pre_arith", "args": [["k", "int"], ["y", "int"], ["m", "int"], ["d", "int"]] + ([] if quick else [["p", "int"]]),
+                "config": {"version": "1.1", "arith": True, "fixed_p": 0}, "timeout": 400 if quick else 1500, "twin_timeout": 30,
+                "bound": "the same identity fields plus type-alternative tests doing integer arithmetic and gYear casts on attributes from %r" % (A_INTS,)})
     for api in ("is_valid", "decode"):
         out.append({"name": "recursion/%s" % api, "engine": "smt", "fn": "smt_recursion", "config": {"api": api}, "timeout": 120,
                     "bound": "all depths 1..MAX_XML_DEPTH (linear frame model measured at depths 5, 10, 20)"})
@@ -419,6 +429,63 @@ def h_xsi(**kw) -> bool:
     try:
         schema.validate(root, namespaces=ns)
         schema.decode(root, namespaces=ns)
+    except XMLSchemaException:
+        pass
+    return True
+
+
+# ---------------------------------------------------------------- arithmetic escapes: identity fields and type alternatives
+_ARITH_XSD = """<xs:schema xmlns:xs="http://www.w3.org/2001/XMLSchema"><xs:element name="root"><xs:complexType><xs:sequence>
+ <xs:element name="a" maxOccurs="unbounded"><xs:complexType><xs:simpleContent><xs:extension base="xs:gYear">
+   <xs:attribute name="k" type="xs:date"/><xs:attribute name="p" type="xs:duration"/></xs:extension></xs:simpleContent></xs:complexType></xs:element>
+ %s
+ </xs:sequence></xs:complexType>
+ <xs:unique name="u"><xs:selector xpath="a"/><xs:field xpath="@k"/></xs:unique>
+ <xs:unique name="v"><xs:selector xpath="a"/><xs:field xpath="@p"/></xs:unique>
+ <xs:unique name="w"><xs:selector xpath="a"/><xs:field xpath="."/></xs:unique></xs:element></xs:schema>"""
+_ALT_11 = ('<xs:element name="e" type="xs:string" minOccurs="0"><xs:alternative test="xs:integer(@m) mod xs:integer(@d) = 1" type="xs:token"/>'
+           '<xs:alternative test="xs:gYear(@y) = xs:gYear(\'2000\')" type="xs:NMTOKEN"/></xs:element>')
+_ALT_10 = '<xs:element name="e" type="xs:string" minOccurs="0"/>'
+A_DATES = ['2000-01-01', '999999999999-01-01', '-999999999999-01-01', 'x']
+A_DURS = ['P1Y', 'P999999999999999999999Y', 'PT1S', '']
+A_YEARS = ['2000', '99999999999999999', '-99999999999999999', 'y']
+A_INTS = ['5', '0', 'x', '99999999999999999999']
+_AR = {}
+
+
+def _arith_schema(version):
+    if version not in _AR:
+        cls = xmlschema.XMLSchema10 if version == '1.0' else xmlschema.XMLSchema11
+        _AR[version] = cls(_ARITH_XSD % (_ALT_11 if version == '1.1' else _ALT_10))
+    return _AR[version]
+
+
+def pre_arith(fn, **kw):
+    return all(0 <= v < 4 for v in kw.values())
+
+
+def h_arith(**kw) -> bool:
+    """huge years / durations in identity fields and in XSD 1.1 type-alternative tests: lax validation and lax/skip decoding
+    return, strict mode raises only the library's own exceptions"""
+    from engine.sym import pick
+    schema = _arith_schema(CFG["version"])
+    root = ET.Element('root')
+    a1 = ET.SubElement(root, 'a', {"k": A_DATES[pick(kw["k"], 4)], "p": A_DURS[pick(kw["p"], 4)] if "p" in kw else A_DURS[0]})
+    a1.text = A_YEARS[pick(kw["y"], 4)]
+    a2 = ET.SubElement(root, 'a', {"k": "2000-01-01", "p": "P1Y"})
+    a2.text = "2000"
+    if "m" in kw:
+        e = ET.SubElement(root, 'e', {"m": A_INTS[pick(kw["m"], 4)], "d": A_INTS[pick(kw["d"], 4)], "y": A_YEARS[pick(kw["y"], 4)]})
+        e.text = 'v'
+    try:
+        list(schema.iter_errors(root))
+        schema.is_valid(root)
+        schema.decode(root, validation='lax')
+        schema.decode(root, validation='skip')
+    except Exception:
+        return False
+    try:
+        schema.decode(root)
     except XMLSchemaException:
         pass
     return True
